@@ -315,6 +315,7 @@ good_desc = st.sampled_from([["verif_c15mod.A", []], ["verif_c15mod.SlotA", []],
 bad_desc = st.sampled_from([
     ["bad name!", []], ["nomod_verif.X", []], ["verif_c15mod.Missing", []], ["verif_c15mod.A", [1, 2]], ["verif_c15mod.A", 5], ["verif_c15mod.A"], [], 5,
     ["", []], [5, []], ["decimal.Decimal", ["zz"]], ["verif_c15mod.Picky", []], ["verif_c15mod.Picky", {"nope": 1}], ["verif_c15mod.Frozen", []], None, "str", {"a": 1},
+    ["verif_c15mod.A", {"x": 1}], ["verif_c15mod.A", {"y": [1], "z": {"k": 2}}], ["verif_c15mod.SlotA", {"x": 1}], ["fractions.Fraction", {"x": 1}],
 ])
 
 
@@ -336,7 +337,10 @@ def payloads(draw, depth=0):
             d["__jsonclass__"] = draw(st.sampled_from([["verif_c15mod.Picky", [inner]], ["verif_c15mod.Picky", {"only": inner}]]))
         else:
             d["__jsonclass__"] = draw(st.sampled_from([["verif_c15mod.Picky", [inner, inner]], ["verif_c15mod.Picky", {"only": inner, "nope": 1}],
-                                                       ["verif_c15mod.A", [inner]], ["verif_c15mod.Missing", {"only": inner}]]))
+                                                       ["verif_c15mod.A", [inner]], ["verif_c15mod.Missing", {"only": inner}],
+                                                       # keyword arguments a constructor without parameters refuses
+                                                       ["verif_c15mod.A", {"only": inner}], ["verif_c15mod.SlotA", {"x": inner, "q": 1}],
+                                                       ["fractions.Fraction", {"x": inner}], ["decimal.Decimal", {"nope": inner}]]))
     if draw(st.booleans()):
         d = dict(reversed(list(d.items())))
     return d
@@ -480,12 +484,23 @@ SHARED_VALUES = [
 ]
 
 
+MIXED = [
+    (float, [0.5, [1.5, "a"]], [2.5, {"k": 3.5}, "b"]),
+    (str, ["x", {"k": "y"}, 1.5], [["z"], "w", 2.5]),
+    (int, [1, (2, 3)], {"n": 4, "m": [5]}),
+]
+
+
 def concurrent_cases(tier):
     # dump only: load() works on the caller's dictionary (it pops and restores the '__jsonclass__'
     # entry), so two threads loading the very same dict object can see each other's intermediate
     # state on the unchanged tree; the statement does not quantify over schedules, nothing is claimed there
     for i in range(len(SHARED_VALUES)):
         yield {"value": i, "op": "dump", "occurrences": 1 if tier == "quick" else 2}
+    # two different conversions at the same time: one under a Config whose handler table overrides a
+    # primitive type (the handler itself calls dump), the other with the defaults
+    for i in range(len(MIXED)):
+        yield {"value": i, "op": "dump-mixed", "occurrences": 1 if tier == "quick" else 2}
 
 
 def oracle_concurrent(case):
@@ -495,17 +510,30 @@ def oracle_concurrent(case):
     mod = ensure_module()
     jc = JC()
     files = [jc.__file__]
-    value = SHARED_VALUES[case["value"]](mod)
-    if case["op"] == "load" and case["value"] in (1,):
-        value = jc.dump(value)
-
-    def convert():
-        return jc.dump(value) if case["op"] == "dump" else jc.load(value)
-
     def render(v):
         return repr(snap_noid(v))
 
-    reference = render(convert())
+    if case["op"] == "dump-mixed":
+        from jsonrpclib.config import Config
+        htype, value_a, value_b = MIXED[case["value"]]
+        cfg = Config()
+
+        def handler(obj, serialize_method, ignore_attribute, ignore, config):
+            # a handler that converts a part of its answer with dump itself
+            return {"handled": jc.dump([repr(obj)] if htype is not str else [len(obj)])}
+        cfg.serialize_handlers[htype] = handler
+        value = [value_a, value_b]
+        converts = [lambda: jc.dump(value_a, config=cfg), lambda: jc.dump(value_b)]
+    else:
+        value = SHARED_VALUES[case["value"]](mod)
+        if case["op"] == "load" and case["value"] in (1,):
+            value = jc.dump(value)
+
+        def convert():
+            return jc.dump(value) if case["op"] == "dump" else jc.load(value)
+        converts = [convert, convert]
+    references = [render(c()) for c in converts]
+    reference = references[0]
     before = snap(value)
 
     def run_once(chooser):
@@ -513,12 +541,12 @@ def oracle_concurrent(case):
         sched = D.Scheduler(chooser, trace_files=files, max_steps=200000)
 
         def main():
-            def work():
+            def work(i):
                 try:
-                    results.append(("ok", render(convert())))
+                    results.append(("ok", render(converts[i]()), i))
                 except Exception as ex:
-                    results.append(("raised", "%s: %s" % (type(ex).__name__, ex)))
-            ts = [D.SimThread(target=work, name="t%d" % i) for i in range(2)]
+                    results.append(("raised", "%s: %s" % (type(ex).__name__, ex), i))
+            ts = [D.SimThread(target=work, args=(i,), name="t%d" % i) for i in range(2)]
             for t in ts:
                 t.start()
             for t in ts:
@@ -530,10 +558,10 @@ def oracle_concurrent(case):
     n = 0
     for pre, results, ch in D.single_preemption_sweep(run_once, max_points=800, occurrences=case["occurrences"], threads=2):
         n += 1
-        for kind, r in results:
-            if kind != "ok" or r != reference:
-                fail("C15/concurrent-%s" % case["op"], "%s of a shared object gives %s %s when another thread converts the same object (one preemption at %r); alone it gives %s" % (
-                    case["op"], kind, r[:200], pre, reference[:200]))
+        for kind, r, i in results:
+            if kind != "ok" or r != references[i]:
+                fail("C15/concurrent-%s" % case["op"], "%s gives %s %s while another thread converts at the same time (one preemption at %r); alone it gives %s" % (
+                    case["op"], kind, r[:200], pre, references[i][:200]))
         if snap(value) != before:
             fail("C15/%s-mutated-argument" % case["op"], "concurrent %s modified its argument" % case["op"])
         infos.append(Info(nt=pre is not None, classes=["concurrent-" + case["op"]], key=(case["value"], case["op"], pre[:2] if pre else None),
